@@ -123,6 +123,48 @@ class Ref:
         # tiny field splits them: the library merges such poles, documented resolution 1e-8)
         self.max_intra = max(float(self.E[idx].max() - self.E[idx].min()) for idx in self.groups)
 
+    # --- conditioning of the eigenvectors ---------------------------------------------------------
+    def kappa(self):
+        """first-order size of the error of a computed eigenvector: eps * ||H|| / (smallest gap between different eigenspaces)"""
+        return 4.0 * np.finfo(float).eps * max(1.0, float(np.abs(self.E).max())) / self.min_gap
+
+    def perturbed(self, draw):
+        """copy of this reference whose eigenvectors are rotated as a backward-stable eigensolver may rotate them: |a> picks up
+        |b> with amplitude +-4 eps ||H|| / (E_b - E_a) for all pairs in different eigenspaces (signs from a fixed pseudo-random
+        sequence numbered by `draw`; energies unchanged).  |f(self) - f(copy)| estimates how accurately f can be known at all from a
+        double-precision diagonalisation of this Hamiltonian."""
+        import copy
+        c = copy.copy(self)
+        rs = np.random.RandomState(12345 + draw)
+        D = self.D
+        dE = self.E[None, :] - self.E[:, None]
+        same = self.gidx[:, None] == self.gidx[None, :]
+        amp = 4.0 * np.finfo(float).eps * max(1.0, float(np.abs(self.E).max()))
+        with np.errstate(divide="ignore", invalid="ignore"):
+            K = np.where(same, 0.0, amp / np.where(same, 1.0, dE))
+        K = np.clip(K, -0.05, 0.05)
+        S = np.triu(rs.choice([-1.0, 1.0], size=(D, D)), 1)
+        S = S + S.T                         # symmetric signs x antisymmetric 1/dE  ->  K antisymmetric
+        K = K * S
+        if np.iscomplexobj(self.U):
+            ph = np.exp(2j * math.pi * np.triu(rs.uniform(size=(D, D)), 1))
+            K = K * (ph + ph.conj().T - np.diag(np.diag(ph + ph.conj().T)))/ 1.0
+            K = (K - K.conj().T) / 2
+        Q, _ = np.linalg.qr(self.U @ (np.eye(D) + K))
+        c.U = Q
+        c._C = {}; c._Q = {}
+        c.__dict__.pop("_gn_cache", None)
+        return c
+
+    def vec_sens(self, fn, draws=2):
+        """max |fn(perturbed copy) - fn(self)| over a few eigenvector perturbations (0 if the eigenvectors are well conditioned)"""
+        if self.kappa() < 1e-12:
+            return 0.0
+        base = fn(self)
+        if not hasattr(self, "_pert"):
+            self._pert = [self.perturbed(k) for k in range(draws)]
+        return max(abs(fn(p) - base) for p in self._pert)
+
     # --- operators in the eigenbasis -----------------------------------------------------------
     def C(self, i):
         """<n|c_i|m>"""
@@ -392,55 +434,89 @@ class Ref:
         self.last_cond = 0.0               # beta^3 * sum over chains of |M| * sum_k |f_k| / prod_{j!=k} |z_k - z_j|: the sum of the
                                            # absolute values of the individual Lehmann contributions (coinciding nodes count as distance 1)
         D = self.D
+        # group level (basis independent): Frobenius norms of the operator blocks between eigenspaces, energies / weights of the eigenspaces
+        ng = len(self.groups)
+        Eg = np.array([E[idx].mean() for idx in self.groups]); wg = np.array([w[idx].max() for idx in self.groups])
+        F4 = self._group_norms(O4)
         for perm in itertools.permutations(range(3)):
             sign = perm_sign(perm)
             (O1, k1), (O2, k2), (O3, k3) = ops[perm[0]], ops[perm[1]], ops[perm[2]]
             # chains 1-2-3-4-1:  O1[1,2] O2[2,3] O3[3,4] O4[4,1]
-            nz12 = np.argwhere(np.abs(O1) > 1e-14)
-            if len(nz12) == 0:
+            ch = _chains(O1, O2, O3, O4, D)
+            if ch is None:
                 continue
-            # build chain list sparsely
-            i1 = nz12[:, 0]; i2 = nz12[:, 1]
-            m12 = O1[i1, i2]
-            # extend by O2
-            rows2 = [np.nonzero(np.abs(O2[s]) > 1e-14)[0] for s in range(D)]
-            rows3 = [np.nonzero(np.abs(O3[s]) > 1e-14)[0] for s in range(D)]
-            a1 = []; a2 = []; a3 = []; a4 = []; mm = []
-            for p in range(len(i1)):
-                s1 = i1[p]; s2 = i2[p]
-                for s3 in rows2[s2]:
-                    m123 = m12[p] * O2[s2, s3]
-                    r3 = rows3[s3]
-                    if len(r3) == 0:
-                        continue
-                    m4 = O3[s3, r3] * O4[r3, s1]
-                    keep = np.abs(m4) > 1e-14
-                    if not keep.any():
-                        continue
-                    r3k = r3[keep]
-                    a1.append(np.full(len(r3k), s1)); a2.append(np.full(len(r3k), s2))
-                    a3.append(np.full(len(r3k), s3)); a4.append(r3k)
-                    mm.append(m123 * m4[keep])
-            if not a1:
-                continue
-            s1 = np.concatenate(a1); s2 = np.concatenate(a2); s3 = np.concatenate(a3); s4 = np.concatenate(a4)
-            M = np.concatenate(mm)
+            s1, s2, s3, s4, M = ch
             if shifts is not None:
                 for dz, dE in ((np.abs(beta * (E[s1] - E[s3]) + k1 + k2), np.abs(E[s1] - E[s3])), (np.abs(beta * (E[s2] - E[s4]) + k2 + k3), np.abs(E[s2] - E[s4]))):
                     if np.any((dz > 1e-9 * beta) & (dz < 1e-5 * max(beta, 1.0))) or np.any((dz <= 1e-9 * beta) & (dE > DEG_TOL)):
                         self.last_ambiguous = True
             val = _dd_exp4(beta, E[s1], E[s2], E[s3], E[s4], w[s1], w[s2], w[s3], w[s4], k1, k2, k3)
             total += sign * np.sum(M * val)
-            scale += float(np.sum(np.abs(M) * (w[s1] + w[s2] + w[s3] + w[s4])))
             self.last_chain_abs += float(np.sum(np.abs(M)))
-            self.last_cond += beta ** 3 * float(np.sum(np.abs(M) * _dd_cond4(beta, E[s1], E[s2], E[s3], E[s4], w[s1], w[s2], w[s3], w[s4], k1, k2, k3)))
+            # scales from the chains over eigenspaces: sum_s |M_s| <= product of the Frobenius norms of the blocks, whatever basis the
+            # eigensolver picked inside a degenerate eigenspace (the library's own basis there differs from numpy's, and a component that
+            # vanishes by a symmetry the partition does not use is a sum of non-zero chains in one basis and has no chain in another)
+            gch = _chains(self._group_norms(O1), self._group_norms(O2), self._group_norms(O3), F4, ng)
+            if gch is not None:
+                g1, g2, g3, g4, Mg = gch
+                Mg = np.abs(Mg)
+                scale += float(np.sum(Mg * (wg[g1] + wg[g2] + wg[g3] + wg[g4])))
+                self.last_cond += beta ** 3 * float(np.sum(Mg * _dd_cond4(beta, Eg[g1], Eg[g2], Eg[g3], Eg[g4], wg[g1], wg[g2], wg[g3], wg[g4], k1, k2, k3)))
         if return_scale:
             return complex(total) * beta ** 3, scale
         return complex(total) * beta ** 3
 
+    def _group_norms(self, O):
+        """G x G matrix of the Frobenius norms of the blocks of O between the eigenspaces (cached per operator matrix)"""
+        key = id(O)
+        c = self.__dict__.setdefault("_gn_cache", {})
+        if key in c and c[key][0] is O:
+            return c[key][1]
+        A2 = np.abs(O) ** 2
+        ng = len(self.groups)
+        R = np.zeros((ng, O.shape[1]))
+        for a, idx in enumerate(self.groups):
+            R[a] = A2[idx].sum(axis=0)
+        Fm = np.zeros((ng, ng))
+        for b, idx in enumerate(self.groups):
+            Fm[:, b] = R[:, idx].sum(axis=1)
+        Fm = np.sqrt(Fm)
+        c[key] = (O, Fm)
+        return Fm
+
     def chi4_mats_scale(self, i, j, k, l, n1, n2, n3):
         v, s = self.chi4(i, j, k, l, n1, n2, n3, return_scale=True)
         return v, s
+
+
+def _chains(O1, O2, O3, O4, D, thr=1e-14):
+    """all index chains 1-2-3-4 with O1[1,2] O2[2,3] O3[3,4] O4[4,1] != 0: (s1, s2, s3, s4, product)"""
+    nz12 = np.argwhere(np.abs(O1) > thr)
+    if len(nz12) == 0:
+        return None
+    i1 = nz12[:, 0]; i2 = nz12[:, 1]
+    m12 = O1[i1, i2]
+    rows2 = [np.nonzero(np.abs(O2[s]) > thr)[0] for s in range(D)]
+    rows3 = [np.nonzero(np.abs(O3[s]) > thr)[0] for s in range(D)]
+    a1 = []; a2 = []; a3 = []; a4 = []; mm = []
+    for p in range(len(i1)):
+        s1 = i1[p]; s2 = i2[p]
+        for s3 in rows2[s2]:
+            m123 = m12[p] * O2[s2, s3]
+            r3 = rows3[s3]
+            if len(r3) == 0:
+                continue
+            m4 = O3[s3, r3] * O4[r3, s1]
+            keep = np.abs(m4) > thr
+            if not keep.any():
+                continue
+            r3k = r3[keep]
+            a1.append(np.full(len(r3k), s1)); a2.append(np.full(len(r3k), s2))
+            a3.append(np.full(len(r3k), s3)); a4.append(r3k)
+            mm.append(m123 * m4[keep])
+    if not a1:
+        return None
+    return np.concatenate(a1), np.concatenate(a2), np.concatenate(a3), np.concatenate(a4), np.concatenate(mm)
 
 
 def perm_sign(p):
